@@ -474,3 +474,45 @@ def replay_grouping(index, ob, seed, saved=None):
                 if got != expected(cols) or out["v"].to_list() != list(range(n)):
                     return _r(True, input={"columns": dict(zip(names, cols))}, observed=got, expected=expected(cols))
     return _r(False)
+
+
+def replay_document_init(index, ob, seed, saved=None):
+    """RTFDocument construction on the real code: every header without own widths carries its own section's body widths; an unset
+    body width list becomes equal shares, a one-element list is repeated."""
+    import polars as pl
+    rtf = index.real_module("rtflite")
+    frames = [pl.DataFrame({"a": ["1"], "b": ["2"]}), pl.DataFrame({"c": ["1"], "d": ["2"], "e": ["3"]}), pl.DataFrame({"f": ["1"], "g": ["2"], "h": ["3"], "i": ["4"]})]
+    widths = [[1, 2], [3, 1, 1], [1, 1, 2, 5]]
+    cases = []
+    for nsec in (2, 3):
+        for own in (False, True):
+            cases.append({"kind": "multi_nested", "sections": nsec, "first_header_has_own_widths": own})
+    cases += [{"kind": "single", "body_widths": w} for w in (None, [2], [1, 3])]
+    for case in cases:
+        if saved is not None and case != saved.get("input", saved):
+            continue
+        try:
+            if case["kind"] == "multi_nested":
+                n = case["sections"]
+                bodies = [rtf.RTFBody(col_rel_width=widths[k]) for k in range(n)]
+                hdrs = [[rtf.RTFColumnHeader(text=list(frames[k].columns), col_rel_width=([9] * frames[k].width if (case["first_header_has_own_widths"] and k == 0) else None))]
+                        for k in range(n)]
+                doc = rtf.RTFDocument(df=frames[:n], rtf_body=bodies, rtf_column_header=hdrs)
+                for k in range(n):
+                    want = [9] * frames[k].width if (case["first_header_has_own_widths"] and k == 0) else widths[k]
+                    got = list(doc.rtf_column_header[k][0].col_rel_width)
+                    if [float(x) for x in got] != [float(x) for x in want]:
+                        return _r(True, input=case, observed=f"section {k}: header widths {got}, its body has {widths[k]} (expected {want})")
+            else:
+                w = case["body_widths"]
+                doc = rtf.RTFDocument(df=frames[1], rtf_body=rtf.RTFBody(col_rel_width=w))
+                want = [1, 1, 1] if w is None else (w * 3 if len(w) == 1 else w)
+                got = list(doc.rtf_body.col_rel_width)
+                if [float(x) for x in got] != [float(x) for x in want]:
+                    return _r(True, input=case, observed=f"body widths {got}, expected {want}")
+                hw = list(doc.rtf_column_header[0].col_rel_width)
+                if [float(x) for x in hw] != [float(x) for x in want]:
+                    return _r(True, input=case, observed=f"default header widths {hw}, body has {want}")
+        except Exception as e:
+            return _r(True, input=case, observed=f"{type(e).__name__}: {e}")
+    return _r(False, tried=len(cases))
